@@ -282,7 +282,7 @@ def run(prop, tier, body):
             # the self-test only makes sense on a tree where the property's rules hold
             from . import selftest
             chk.selftest = selftest.run_for(prop)
-            missed = [x for x in chk.selftest['results'] if x['status'] == 'MISSED']
+            missed = [x for x in chk.selftest['results'] if x['status'] != 'DETECTED']       # MISSED, ANALYSIS-ERROR and STALE all count
             if missed:
                 raise AnalysisError('checker self-test: %d seeded change(s) that break %s are no longer detected: %s'
                                     % (len(missed), prop, [x['seed'] for x in missed]))
